@@ -25,7 +25,7 @@ def pipeline_cfgs(rep, what):
         cfgs.append(pp.gen_cfg('single-observer-faults', MaxSteps=4 if th else 3, FaultSetName='"observer"', MaxIllegal=1))
     elif what == 'resub':       # C12: the model re-subscribes the same pipeline object
         cfgs.append(pp.gen_cfg('single-resub', MaxSteps=5 if th else 4, MaxSubs=2))
-        cfgs.append(pp.gen_cfg('pairs-resub', ChainSetName='"pairs"' if th else '"pairs-sample"', SampleN=0 if th else 40, MaxSteps=5 if th else 4, MaxSubs=2))
+        cfgs.append(pp.gen_cfg('pairs-resub', ChainSetName='"pairs"' if th else '"pairs-sample"', SampleN=0 if th else 40, MaxSteps=4, MaxSubs=2))   # every pair in the thorough tier; 5 steps are kept for the single instances (the pairs alone were 7.5 GB of cases)
     elif what == 'reuse':       # C12: concurrent subscriptions / one operator value applied to several sources
         cfgs.append(pp.gen_cfg('single-reuse', MaxSteps=4 if th else 3))
         cfgs.append(pp.gen_cfg('pairs-reuse', ChainSetName='"pairs"' if th else '"pairs-sample"', SampleN=0 if th else 100, MaxSteps=3))
